@@ -123,6 +123,7 @@ type c19RspOpsFacts struct {
 	interim, lateInterim, lateFinal, lateAdd int
 	status                                   int
 	implicit                                 bool
+	byHandler                                bool // the header was complete before the handler returned
 }
 
 // the model: the message the call sequence stands for (see the file comment)
@@ -168,6 +169,7 @@ func (c c19RspOpsCase) expect() (sections []c19RspExpect, body string, facts c19
 				final.alts = append(final.alts, c19RspHeaderFields(h, facts.status))
 			}
 		})
+	facts.byHandler = complete
 	if !complete {
 		finish(http.StatusOK, true) // the server flushes when the handler returns
 	}
@@ -195,7 +197,37 @@ func (f c19RspOpsFacts) history() string {
 	return strings.Join(l, "+")
 }
 
+// c19RunRspOps runs a case. A failing sequence is reported through its shortest failing prefix
+// (same method, same trailer style): the key names the failed clause and the call that completes
+// that prefix, with the state of the message before it ("@WriteHeader(103)/after-final";
+// "@handler-end" when even the empty handler fails), so one defect gives one key whatever follows.
 func c19RunRspOps(c c19RspOpsCase) (outcome string, fail *explore.Fail) {
+	out, f := c19RunRspOpsAt(c, "")
+	if f == nil {
+		return out, nil
+	}
+	for k := 0; k <= len(c.Ops); k++ {
+		p := c19RspOpsCase{Ops: c.Ops[:k], Head: c.Head, Trailer: c.Trailer}
+		at := "@handler-end"
+		if k > 0 {
+			_, _, before := c19RspOpsCase{Ops: c.Ops[:k-1], Head: c.Head, Trailer: c.Trailer}.expect()
+			at = "@" + c19RspOps[c.Ops[k-1]] + "/before-final"
+			if before.byHandler {
+				at = "@" + c19RspOps[c.Ops[k-1]] + "/after-final"
+			}
+		}
+		if _, pf := c19RunRspOpsAt(p, at); pf != nil {
+			if k < len(c.Ops) {
+				pf.What += fmt.Sprintf(" [shortest failing prefix: the first %d of the %d calls]", k, len(c.Ops))
+			}
+			return "", pf
+		}
+	}
+	explore.Must(false, "the sequence fails (%s) but not when run as its own prefix", f.Key)
+	return "", f
+}
+
+func c19RunRspOpsAt(c c19RspOpsCase, at string) (outcome string, fail *explore.Fail) {
 	fake := &c19FakeStream{}
 	str := newStream(fake, nil, nil, func(io.Reader, *headersFrame) error { return nil }, nil)
 	rw := newResponseWriter(str, nil, c.Head, slog.New(slog.DiscardHandler))
@@ -205,7 +237,7 @@ func c19RunRspOps(c c19RspOpsCase) (outcome string, fail *explore.Fail) {
 	rw.Flush()
 	rw.flushTrailers()
 	sections, wantBody, facts := c.expect()
-	out, f := c19JudgeRspWire("writer-response-ops", "@"+facts.history(), append([]byte(nil), fake.out.Bytes()...), true, sections, wantBody)
+	out, f := c19JudgeRspWire("writer-response-ops", at, append([]byte(nil), fake.out.Bytes()...), true, sections, wantBody)
 	if f != nil {
 		return "", f
 	}
@@ -250,7 +282,7 @@ func c19RspOpsPart() explore.Part {
 	return explore.Part{
 		Name: "writer-response-ops",
 		Run: func(e explore.Env) *explore.Report {
-			maxLen := c19Tier(e, 5, 7)
+			maxLen := c19Tier(e, 5, 6)
 			n, pow := 0, 1
 			for l := 0; l <= maxLen; l++ {
 				n += pow
